@@ -2,15 +2,17 @@
 intact."""
 from .. import gen, oracle, tt as T
 from .base import Mgr, replay  # noqa: F401
-from ..impl import vname
+from ..impl import vname, Spellings
 
 RULE = ('random histories (builds, connectives, collections, swaps) with a rejected call of '
         'every kind injected at every point, dynamic reordering off and on (natural trigger with '
         'a lowered threshold); a case is (kind of rejected call, history position); all are '
         'non-trivial when the manager holds at least one non-constant function')
 EXHAUSTIVE = {'quick': False, 'thorough': False}
-ASSUMES = ['syntax errors in add_expr are exercised by the C05 streams (parser model)',
-           'unreadable-file failures are exercised on the implementation only']
+ASSUMES = ['after a syntax error met in the middle of a formula only the outcome is compared with the '
+           'model (dd translates while it parses; the model parses first); the state is checked by the oracle',
+           'unreadable files: JSON files with an unknown child/root id, a bad level or a parent before its '
+           'children, loaded through dd.autoref']
 
 
 def bad_calls(M, rng, held):
@@ -69,9 +71,28 @@ def bad_calls(M, rng, held):
         ('overlap', 'preimage', (u, u, 'n', {0: 1 % n, 1 % n: 0}, 'n', [0], False)) if n >= 2 else None,
         ('undeclared-variable', 'image', (u, u, 'n', {0: 1 % n}, 'n', [undeclared], False)) if n >= 2 else None,
     ]
+    # a formula that creates nodes before the offending name is reached
+    def rand_expr(d):
+        if d == 0 or rng.random() < 0.2:
+            return [rng.choice(['', '~']) + f'v{rng.randrange(n)}'] if rng.random() < 0.5 else [f'v{rng.randrange(n)}']
+        op = rng.choice(['/\\', '\\/', '#', '=>', '<=>'])
+        return ['('] + rand_expr(d - 1) + [op] + rand_expr(d - 1) + [')']
+    toks = []
+    for t in rand_expr(3) + ['\\/', f'v{undeclared}']:
+        if t.startswith('~') and len(t) > 1:
+            toks += ['~', t[1:]]
+        else:
+            toks.append(t)
+    out.append(('undeclared-variable', 'add_expr', (Spellings(toks),)))
+    out.append(('undeclared-variable', 'add_expr', (Spellings(toks),)))
+    out.append(('syntax-error', 'add_expr', (Spellings(toks[:-2] + [')', ')']),)))
     used = [v for v in range(n) if any(b._succ[k][0] == b.vars[vname(v)] for k in b._succ)]
     if used:
         out.append(('variable-in-use', 'undeclare', ([rng.choice(used)],)))
+    if b._last_len is not None:
+        # the public find_or_add raises the internal signal when dynamic reordering
+        # is enabled: that is C09's known finding, not a failing call of this property
+        out = [c for c in out if c is None or c[1] != 'find_or_add']
     return [c for c in out if c is not None]
 
 
@@ -91,8 +112,10 @@ def history(ctx, n, steps, reordering):
         memo = {}
         return {u: oracle.tt_fast(M.b, u, [vname(i) for i in range(n)], memo) for u in held}
 
+    kind = None
     for step in range(steps):
         k = rng.random()
+        kind = None
         if k < 0.3:
             t = rng.getrandbits(1 << n)
             u = gen.build_tt(s, 0, t, list(range(n)))
@@ -122,7 +145,13 @@ def history(ctx, n, steps, reordering):
             kind, name, args = rng.choice(calls)
             before_tt = snapshot()
             before_vars = dict(M.b.vars)
+            before_cfg = M.b._last_len is None
             r = M.op(name, *args)
+            if kind == 'syntax-error':
+                # dd translates while it parses: the nodes of the valid prefix exist
+                # when the error is met; the model parses first.  Only the outcome
+                # is compared, the state is checked by the oracle, and the history ends.
+                s.outcome_only()
             ctx.case((kind, name, reordering, len(s.lines)), bool(held))
             ctx.count('rejected:' + kind)
             res = s.last_result()
@@ -134,8 +163,15 @@ def history(ctx, n, steps, reordering):
                 ctx.violation('C17:signal-escaped', f'{name}{args} raised the internal reordering signal', M.case())
                 break
             if not res.startswith('ok:'):
-                if M.b.vars != before_vars and kind not in ('bad-order',):
+                # (with dynamic reordering enabled a reordering may be served before the
+                # call fails: the order may then change, it must only stay a bijection)
+                if M.b.vars != before_vars and kind not in ('bad-order',) and before_cfg:
                     ctx.violation('C17:order-changed', f'rejected {name}{args} changed the variable order', M.case())
+                if (M.b._last_len is None) != before_cfg:
+                    ctx.violation('C17:configuration-changed',
+                                  f'rejected {name}{args} switched dynamic reordering '
+                                  f'{"off" if M.b._last_len is None else "on"}', M.case())
+                    break
                 after = snapshot()
                 if after != before_tt:
                     ctx.violation('C17:reference-changed', f'rejected {name}{args} changed a held reference', M.case())
@@ -147,6 +183,9 @@ def history(ctx, n, steps, reordering):
         if sorted(M.b.vars.values()) != list(range(len(M.b.vars))):
             ctx.violation('C17:order-not-bijection', f'{M.b.vars}', M.case())
             break
+        if kind == 'syntax-error':
+            ctx.sample(dict(stream=s.label, first_lines=s.lines[:10]))
+            return
     for u, c in held.items():
         for _ in range(c):
             M.op('decref', u)
@@ -155,8 +194,141 @@ def history(ctx, n, steps, reordering):
     ctx.sample(dict(stream=s.label, first_lines=s.lines[:10]))
 
 
+def failed_retry(ctx, n, kind):
+    """the call fails only AFTER a dynamic reordering was served: the first
+    attempt raises the internal signal, the retry meets the offending name"""
+    rng = ctx.rng
+    M = Mgr(ctx, f'failed retry n={n} kind={kind}', n, list(range(n)))
+    s = M.s
+    held = []
+    ledger = {1: 1}
+    for _ in range(2):
+        u = M.build(rng.getrandbits(1 << n))
+        if u is not None and abs(u) != 1:
+            M.op('incref', u)
+            ledger[abs(u)] = ledger.get(abs(u), 0) + 1
+            held.append(u)
+    M.op('gc', None)
+    before = {u: M.tt(u) for u in held}
+    M.op('configure', True)
+    M.op('set_last_len', 1)
+    toks = []
+    for j in range(n):
+        toks += ['(', f'v{j}', rng.choice(['#', '<=>', '/\\', '\\/']), f'v{(j + 1) % n}', ')', rng.choice(['#', '\\/'])]
+    toks += [f'v{n + 2}'] if kind == 'undeclared' else ['(', ')']
+    M.op('add_expr', Spellings(toks))
+    if kind != 'undeclared':
+        s.outcome_only()
+    res = s.last_result()
+    ctx.case(('failed-retry', n, kind, tuple(toks)), True)
+    ctx.count('failed-retry:' + kind)
+    if res.startswith('ok:'):
+        ctx.violation('C17:accepted', 'a formula with an undeclared name / syntax error was accepted', M.case())
+    if M.b._last_len is None:
+        ctx.violation('C17:configuration-changed',
+                      'the rejected add_expr (rejected on the retry after a dynamic reordering) '
+                      'left dynamic reordering switched off', M.case())
+    for u, t in before.items():
+        if abs(u) not in M.b._succ or M.tt(u) != t:
+            ctx.violation('C17:reference-changed', f'held reference {u} changed', M.case())
+    bad = oracle.check_table(M.b, external=ledger)
+    if bad:
+        ctx.violation('C17:not-canonical', f'{bad[:3]}', M.case())
+    if kind == 'undeclared':
+        # later calls behave normally
+        if held:
+            r = M.op('apply', 'or', held[0], held[-1], None)
+            if r is None or M.tt(r) != (before[held[0]] | before[held[-1]]):
+                ctx.violation('C17:later-call', 'a call after the rejected one misbehaves', M.case())
+        for u in held:
+            M.op('decref', u)
+        M.op('configure', False)
+        M.op('gc', None)
+
+
+def json_faults(ctx, n, receiver, fault):
+    """a JSON file that cannot be loaded (dd.autoref): the receiver keeps
+    exact counts, its live Functions keep their functions, and a later load
+    of the intact file works"""
+    from ..impl import JNodes
+    from .C12 import abuild, by_name
+    rng = ctx.rng
+    s = ctx.session(f'json fault={fault} n={n} recv={receiver}')
+    A = 'a0'
+    s.op(A, 'new', {v: v for v in range(n)})
+    hs = [abuild(s, A, rng.getrandbits(1 << n) | 2, n) for _ in range(2)]
+    d = s.op(A, 'json_dump', hs)
+    if d is None:
+        return
+    lv, rt, ns = d
+    ns = [tuple(x) for x in ns]
+    if len(ns) < 2:
+        return
+    R = A if receiver == 'same' else 'a1'
+    if R != A:
+        s.op(R, 'new', {} if receiver == 'fresh' else {v: n - 1 - v for v in range(n)})
+        if receiver == 'in-use':
+            abuild(s, R, rng.getrandbits(1 << n), n)
+    H = s.impl.handles
+    r = s.impl.amgr[R]
+    before = {h: by_name(r._bdd, f.node, n) for h, f in H[R].items()}
+    bad_ns, bad_rt = list(ns), list(rt)
+    if fault == 'unknown-child':
+        i = rng.randrange(1, len(ns))
+        k, l, lo, hi = ns[i]
+        bad_ns[i] = (k, l, 9000 + k, hi)
+    elif fault == 'unknown-root':
+        bad_rt[-1] = 9001
+    elif fault == 'bad-level':
+        k, l, lo, hi = ns[-1]
+        bad_ns[-1] = (k, n + 3, lo, hi)
+    elif fault == 'parent-first':
+        bad_ns = [ns[-1]] + ns[:-1]
+    got = s.op(R, 'json_load', {v: l for v, l in lv}, bad_rt, JNodes(bad_ns), False)
+    case = lambda: dict(stream=s.label, lines=list(s.lines))  # noqa: E731
+    ctx.case(('json-fault', fault, receiver, n, tuple(bad_ns)), True)
+    ctx.count('json-fault:' + fault)
+    if got is not None:
+        ctx.count('json-fault-accepted:' + fault)
+        for h in got:
+            s.op(R, 'drop', h)
+    ext = {1: 1}
+    for u in [abs(f.node) for f in H[R].values()]:
+        ext[u] = ext.get(u, 0) + 1
+    bad = oracle.check_table(r._bdd, external=ext)
+    if bad:
+        ctx.violation('C17:json-counts', f'after the rejected JSON load ({fault}): {bad[:3]}', case)
+    for h, t in before.items():
+        if by_name(r._bdd, H[R][h].node, n) != t:
+            ctx.violation('C17:reference-changed', f'live Function {h} changed after the rejected load', case)
+            break
+    # the intact file still loads, and everything can be released
+    ok = s.op(R, 'json_load', {v: l for v, l in lv}, rt, JNodes(ns), False)
+    if ok is None:
+        ctx.violation('C17:later-call', 'the intact file is rejected after the failed load', case)
+    else:
+        for h in ok:
+            s.op(R, 'drop', h)
+    for h in list(H[R]):
+        s.op(R, 'drop', h)
+    s.op(R, 'gc')
+    if set(r._bdd._succ) != {1}:
+        ctx.violation('C17:json-counts', f'nodes {sorted(r._bdd._succ)} survive a collection with no live Function', case)
+    if R != A:
+        for h in list(H[A]):
+            s.op(A, 'drop', h)
+
+
 def run(ctx):
     q = ctx.quick
     rng = ctx.rng
+    for n in (2, 3, 4):
+        for kind in ('undeclared', 'syntax'):
+            for _ in range(2 if q else 12):
+                failed_retry(ctx, n, kind)
+    for fault in ('unknown-child', 'unknown-root', 'bad-level', 'parent-first'):
+        for receiver in ('fresh', 'same', 'in-use'):
+            for _ in range(1 if q else 8):
+                json_faults(ctx, rng.choice([2, 3]), receiver, fault)
     for i in range(24 if q else 300):
         history(ctx, rng.choice([2, 3, 3, 4]), 40 if q else 80, reordering=(i % 3 == 2))
